@@ -132,6 +132,20 @@ pub fn workers() -> usize {
 pub fn scratch_base(tag: &str) -> String {
     let base = if std::path::Path::new("/dev/shm").is_dir() { "/dev/shm".to_string() } else { std::env::temp_dir().to_string_lossy().into_owned() };
     let pid = unsafe { libc::syscall(libc::SYS_getpid) };
+    // scratch directories of drivers that were killed: remove (the pid in the name is dead)
+    if let Ok(rd) = std::fs::read_dir(&base) {
+        for e in rd.flatten() {
+            let name = e.file_name().to_string_lossy().into_owned();
+            if let Some(rest) = name.strip_prefix("msim-") {
+                if let Some(p) = rest.rsplit('-').next().and_then(|x| x.parse::<i32>().ok()) {
+                    let alive = unsafe { libc::kill(p, 0) } == 0 || std::io::Error::last_os_error().raw_os_error() == Some(libc::EPERM);
+                    if !alive {
+                        let _ = std::fs::remove_dir_all(e.path());
+                    }
+                }
+            }
+        }
+    }
     let p = format!("{base}/msim-{tag}-{pid}");
     let _ = std::fs::remove_dir_all(&p);
     std::fs::create_dir_all(&p).expect("scratch dir");
